@@ -3,6 +3,7 @@ package main
 import (
 	"fmt"
 	"go/token"
+	"os"
 	"go/types"
 	"reflect"
 	"sort"
@@ -216,7 +217,7 @@ func c12(r *Report) {
 				if _, isC := constString(unwrapConv(b.Y)); isC && b.Op == token.EQL && ce.Taken {
 					scoped = true
 				}
-				if (isNilConst(b.Y) && b.X == ssa.Value(nr.Params[1])) || (isNilConst(b.X) && b.Y == ssa.Value(nr.Params[1])) {
+				if (isNilConst(b.Y) && isParamVal(b.X, nr.Params[1])) || (isNilConst(b.X) && isParamVal(b.Y, nr.Params[1])) {
 					if (b.Op == token.EQL) == ce.Taken {
 						nilArm = true
 					}
@@ -298,18 +299,32 @@ func c12(r *Report) {
 				}
 				ok2 := true
 				for _, t := range tests {
-					vals, _, okp := returnValuesFrom(t.NonNil, 0)
+					vals, _, okp := returnValuesFromEdge(t.If.Block(), t.NonNil, 0)
 					if !okp || len(vals) == 0 {
 						ok2 = false
 					}
 					for _, v := range vals {
 						if !isNilConst(v) {
 							ok2 = false
+							if os.Getenv("VERIF_DEBUG") != "" {
+								fmt.Fprintf(os.Stderr, "C12R3 %s: result0 %s (%T) from test in block %d\n", fnName(f), v, v, t.If.Block().Index)
+							}
 						}
 					}
-					errs, _, _ := returnValuesFrom(t.NonNil, 1)
+					// (a test on a variable that merges several errors and nil - the result variable
+					// of an inlined helper - is on its non-nil edge by construction: the nil input
+					// of the merge is not a value the edge can carry)
+					merged := false
+					if bin, isBin := t.If.Cond.(*ssa.BinOp); isBin {
+						for _, side := range []ssa.Value{bin.X, bin.Y} {
+							if ph, isPhi := side.(*ssa.Phi); isPhi && ph.Block() == t.If.Block() {
+								merged = true
+							}
+						}
+					}
+					errs, _, _ := returnValuesFromEdge(t.If.Block(), t.NonNil, 1)
 					for _, v := range errs {
-						if isNilConst(v) {
+						if isNilConst(v) && !merged {
 							ok2 = false
 						}
 					}
@@ -317,6 +332,17 @@ func c12(r *Report) {
 				r.Paths++
 				r.Decide("path", key, ok2, "the error edge returns (nil, err)", "after this call fails the parser still returns a modifier (or no error): a broken configuration is partly accepted", c.Pos())
 			}
+		}
+		// the whole input is one JSON document: json.Unmarshal of the complete buffer (a
+		// json.Decoder stops after the first value and accepts whatever follows it)
+		{
+			whole := false
+			for _, c := range plainCalls(fj, "encoding/json.Unmarshal") {
+				if len(fj.Params) > 0 && isParamVal(c.Call.Args[0], fj.Params[0]) {
+					whole = true
+				}
+			}
+			r.Decide("flow", "M/parse.FromJSON: the complete input is validated as one JSON document", whole, "json.Unmarshal(b, ...)", "the configuration is decoded with something that stops after the first value (json.Decoder): a valid node followed by garbage, or by a second document, is accepted and only the first takes effect", fj.Pos())
 		}
 		// FromJSON: exactly one key; unknown name rejected
 		okOne := false
@@ -422,6 +448,26 @@ func c12(r *Report) {
 	})
 
 	r.Guard("C12.R5", "a filter applies its modifier when the condition holds and the else-branch otherwise", func() {
+		// the method condition compares case-insensitively (a configuration may spell the method
+		// in any case, and so may a client)
+		if mm := w.Fn("method", "Matcher.matches"); mm != nil && mm.Blocks != nil {
+			r.Touch(mm)
+			fold := false
+			for _, ret := range returns(mm) {
+				for _, l := range resolveAll(ret.Results[0]) {
+					if isCallValue(l, "strings.EqualFold") {
+						fold = true
+					}
+					if b, isB := l.(*ssa.BinOp); isB && b.Op == token.EQL {
+						norm := func(v ssa.Value) bool { return isCallValue(v, "strings.ToUpper", "strings.ToLower") }
+						if norm(b.X) && norm(b.Y) {
+							fold = true
+						}
+					}
+				}
+			}
+			r.Decide("flow", "(*M/method.Matcher).matches compares the method case-insensitively", fold, "strings.EqualFold (or both sides folded the same way)", "the method condition compares exactly: a request (or a configuration) that spells the method in another case takes the else-branch", mm.Pos())
+		}
 		// a condition on a multi-valued part of a message holds when any of its values
 		// matches: the query-string condition looks at every value of the parameter, not
 		// at the first one (url.Values.Get)
@@ -618,7 +664,7 @@ func c12(r *Report) {
 					if c, ok := st.Val.(*ssa.Call); ok {
 						if b, ok := c.Call.Value.(*ssa.Builtin); ok && b.Name() == "append" {
 							fromField := anyIn(w.backSlice(c.Call.Args[0], flowOpt{}), func(v ssa.Value) bool { fa, y := v.(*ssa.FieldAddr); return y && fieldObj(fa) == fo })
-							fromParam := anyIn(w.backSlice(c.Call.Args[1], flowOpt{}), func(v ssa.Value) bool { return v == ssa.Value(add.Params[1]) })
+							fromParam := anyIn(w.backSlice(c.Call.Args[1], flowOpt{}), func(v ssa.Value) bool { return isParamVal(v, add.Params[1]) })
 							okApp = fromField && fromParam
 						}
 					}
@@ -780,7 +826,7 @@ func c12(r *Report) {
 		for _, in := range instrs(sp) {
 			switch x := in.(type) {
 			case *ssa.Store:
-				if fa, ok := x.Addr.(*ssa.FieldAddr); ok && fa.X == ssa.Value(sp.Params[0]) {
+				if fa, ok := x.Addr.(*ssa.FieldAddr); ok && isParamVal(fa.X, sp.Params[0]) {
 					muts = append(muts, x)
 				}
 			case *ssa.Call:
